@@ -111,6 +111,8 @@ THvar ==
                  ELSE LET li == MapEntry(Ev.lsb_map, g) IN
                       /\ WithinRounding(dl, SumAt(regs, Ev.datas, li[1], li[2], pr.coords, 1))
                       /\ WithinRounding(dl, SumGiven(Ev.lsb_sets[g + 1], pr.coords, 1))
+  \* a map with no entries gives no delta set: the advance is the one of hmtx
+  /\ \A q \in DOMAIN Ev.empty_adv : \A h \in 0..(Ev.ng - 1) : Ev.empty_adv[q][h + 1] = HmtxAdvance(Ev.long, h)
 TInit == l = 1
 TraceSpec == TInit /\ [][TIvs \/ TNorm \/ TAvar \/ TIvsRead \/ TIvsRow \/ THvar]_l
 =============================================================================
